@@ -194,3 +194,48 @@ Qed.
 Theorem quote_word s : sh_words uw (quote uw s) = Some [s].
 Proof. exact (join_words [s]). Qed.
 End Proofs.
+
+(* ---- concatenating joined word lists with a blank (flag variables referring to other flag variables) ---- *)
+Section Concat.
+Variable uw : char -> bool.
+Notation lex := (Sh.lex uw).
+
+Definition wtok (a : str) : token := TW (fl (needs_quote uw a) a).
+
+Lemma lex_leading_blank rest : lex false false [] (c_sp :: rest) = lex false false [] rest.
+Proof. reflexivity. Qed.
+
+Lemma lex_join_then a : forall rest,
+  lex false false [] (join uw a ++ c_sp :: rest) = option_map (app (map wtok a)) (lex false false [] rest).
+Proof.
+  unfold join. induction a as [|x a IH]; intros rest.
+  - cbn [map join_sp app]. rewrite lex_leading_blank. destruct (lex false false [] rest); reflexivity.
+  - cbn [map join_sp]. destruct a as [|y a'].
+    + cbn [map]. rewrite quote_img, lex_sep. cbn [app]. destruct (lex false false [] rest); reflexivity.
+    + cbn [map] in *. rewrite <- app_assoc. cbn [app]. rewrite quote_img, lex_sep. rewrite IH.
+      destruct (lex false false [] rest); reflexivity.
+Qed.
+
+Lemma words_only_wtok a : words_only (map wtok a) = Some a.
+Proof.
+  induction a as [|x a IH]; [reflexivity|]. cbn [map words_only]. unfold wtok at 1. rewrite IH. cbn.
+  now rewrite word_str_fl.
+Qed.
+
+Lemma words_only_app t1 t2 a b : words_only t1 = Some a -> words_only t2 = Some b -> words_only (t1 ++ t2) = Some (a ++ b).
+Proof.
+  revert a; induction t1 as [|t t1 IH]; intros a H1 H2.
+  - cbn in H1. inversion H1. exact H2.
+  - destruct t as [w|]; [|discriminate]. cbn [app words_only] in *.
+    destruct (words_only t1) as [a'|] eqn:E; [|discriminate]. cbn in H1. inversion H1; subst a.
+    rewrite (IH a' eq_refl H2). reflexivity.
+Qed.
+
+(* the text  <joined a> <blank> <joined b>  is split by sh into a ++ b (either list may be empty) *)
+Theorem join_concat_words a b : sh_words uw (join uw a ++ c_sp :: join uw b) = Some (a ++ b).
+Proof.
+  unfold sh_words, sh_lex. rewrite lex_join_then.
+  pose proof (join_lex uw b) as Hb. unfold sh_lex in Hb. rewrite Hb. cbn [option_map].
+  apply words_only_app; apply words_only_wtok.
+Qed.
+End Concat.
